@@ -25,7 +25,7 @@ var R = hx.NewRecorder("C15", "cases = (endpoint kind: GMSSL client | GMSSL-only
 	"oracle = Handshake() returns (quiescence of the in-memory transport turns waiting into EOF; a read-after-EOF counter catches spinning), returns an error for every true deviation, HandshakeComplete stays false, no panic; legal variations (fragmented or coalesced messages, unknown ticket) must still succeed; non-trivial = deviation applied after at least one valid message or in the first message; distinct by hash of the plan")
 
 func TestMain(m *testing.M) {
-	R.Require("junk_certificate_verify", "jcv_vers:300", "ecdhe_ske", "hello_ext_sweep", "dev:big_record", "replay_deep:gmclient", "replay_deep:tlsclient", "replay_deep:gmserver", "replay_deep:tlsserver", "replay_deep:autoserver", "replay_control", "replay:omit_msg", "replay:hello_ext", "replay:swap_msgs", "hello_vector_lengths", "dev:cke_ciphertext_byte", "dev:cert_list", "dev:inner_len", "dev:alert_flood", "inner_length_sweep", "peer_pressed_on_after_alert", "endpoint:gmclient", "endpoint:gmserver", "endpoint:autoserver", "endpoint:tlsserver", "endpoint:tlsclient", "vers_sweep_done", "dev:omit", "dev:repeat", "dev:retype", "dev:reorder", "dev:truncate", "dev:len_field", "dev:split", "dev:coalesce",
+	R.Require("junk_certificate_verify", "jcv_vers:300", "ecdhe_ske", "hello_ext_sweep", "dev:big_record", "replay_deep:gmclient", "replay_deep:tlsclient", "replay_deep:gmserver", "replay_deep:tlsserver", "replay_deep:autoserver", "replay_control", "replay:omit_msg", "replay:hello_ext", "replay:swap_msgs", "hello_vector_lengths", "dev:cke_ciphertext_byte", "dev:cert_list", "tls_resumption_deviation", "dev:inner_len", "dev:alert_flood", "inner_length_sweep", "peer_pressed_on_after_alert", "endpoint:gmclient", "endpoint:gmserver", "endpoint:autoserver", "endpoint:tlsserver", "endpoint:tlsclient", "vers_sweep_done", "dev:omit", "dev:repeat", "dev:retype", "dev:reorder", "dev:truncate", "dev:len_field", "dev:split", "dev:coalesce",
 		"dev:oversize", "dev:ccs_early", "dev:appdata_early", "dev:alert_fatal", "dev:unknown_record", "dev:close", "dev:record_overflow", "replay_perturbed", "legal_must_succeed", "cke_1byte", "hostile_suites")
 	for d := 0; d <= 5; d++ {
 		R.Require(fmt.Sprintf("depth:%d", d))
@@ -274,6 +274,145 @@ func planFor(d deviation) (*rgmssl.Plan, *bool, bool, string) {
 		return []rgmssl.Out{o}
 	}
 	return p, fired, legal, eff
+}
+
+// ---- TLS mode: a keyed scripted client that resumes a session from a ticket
+
+// tlsSession runs one honest TLS 1.2 connection (suite c02f) against the server configuration and returns the ticket the
+// server issued, the master secret sealed in it (opened with the server's own keys through the hook) and its suite.
+func tlsSession(t interface{ Fatalf(string, ...any) }, mk func(id string) *gmtls.Config, id string) (ticket, master []byte) {
+	p := tlsx.GetPKI()
+	cc := tlsx.TLSClient(p, "c"+id)
+	cc.CipherSuites = []uint16{0xc02f}
+	cc.MinVersion, cc.MaxVersion = 0x0303, 0x0303
+	cc.ClientSessionCache = gmtls.NewLRUClientSessionCache(1)
+	sc := mk(id)
+	r := tlsx.Run(cc, sc, tlsx.Script{ClientSend: []byte("first")})
+	if r.Client.HSErr != nil || r.Server.HSErr != nil {
+		t.Fatalf("harness: the honest first connection failed: %s", r.Describe())
+	}
+	var stream, hs []byte
+	for _, c := range r.Log {
+		if !c.FromClient {
+			stream = append(stream, c.Data...)
+		}
+	}
+	for len(stream) >= 5 {
+		n := int(stream[3])<<8 | int(stream[4])
+		if len(stream) < 5+n || stream[0] == 20 {
+			break
+		}
+		if stream[0] == 22 {
+			hs = append(hs, stream[5:5+n]...)
+		}
+		stream = stream[5+n:]
+	}
+	for len(hs) >= 4 {
+		n := int(hs[1])<<16 | int(hs[2])<<8 | int(hs[3])
+		if len(hs) < 4+n {
+			break
+		}
+		if hs[0] == 4 && n >= 6 {
+			ticket = hs[4+6 : 4+n]
+		}
+		hs = hs[4+n:]
+	}
+	if ticket == nil {
+		t.Fatalf("harness: no NewSessionTicket seen on the first connection")
+	}
+	ok, _, _, m, _ := gmtls.VerifDecryptTicket(sc, ticket)
+	if !ok {
+		t.Fatalf("harness: the issued ticket does not open under the server's keys")
+	}
+	return ticket, m
+}
+
+// A scripted TLS 1.2 client that holds a genuine ticket and its master secret resumes against the TLS-only server and
+// the auto-switch server with a ClientHello that deviates in one respect; it follows through with correct Finished
+// messages over whatever it sent, so only the server's own checks stand between the deviation and a completed handshake.
+func TestC15_TLSResumptionDeviations(t *testing.T) {
+	p := tlsx.GetPKI()
+	n := 0
+	for _, mode := range []string{"tlsserver", "autoserver"} {
+		mk := func(id string) *gmtls.Config {
+			var sc *gmtls.Config
+			if mode == "tlsserver" {
+				sc = tlsx.TLSServer(p, p.RSASrv, "s"+id)
+			} else {
+				sc = tlsx.AutoServer(p, p.RSASrv, "s"+id)
+			}
+			sc.CipherSuites = []uint16{0xc02f, 0xc014, tlsx.GMECCSM4CBCSM3}
+			sc.SetSessionTicketKeys([][32]byte{{7, 7, 7}})
+			return sc
+		}
+		ticket, master := tlsSession(t, mk, "trd"+mode)
+		type dev struct {
+			name     string
+			o        func(o *rgmssl.TLSResumeOpts)
+			mustFail bool // the hello is not acceptable: neither resumption nor anything else may complete
+			resume   bool // must be resumed and complete (controls)
+		}
+		devs := []dev{
+			{"control", func(o *rgmssl.TLSResumeOpts) {}, false, true},
+			{"control_more_suites", func(o *rgmssl.TLSResumeOpts) { o.Suites = []uint16{0x1301, 0xc02f, 0x00ff} }, false, true},
+			{"control_compression_null_and_deflate", func(o *rgmssl.TLSResumeOpts) { o.Compressions = []byte{1, 0} }, false, true},
+			{"compression_deflate_only", func(o *rgmssl.TLSResumeOpts) { o.Compressions = []byte{1} }, true, false},
+			{"compression_none", func(o *rgmssl.TLSResumeOpts) { o.Compressions = []byte{} }, true, false},
+			{"compression_unknown_only", func(o *rgmssl.TLSResumeOpts) { o.Compressions = []byte{64, 1} }, true, false},
+			{"junk_finished", func(o *rgmssl.TLSResumeOpts) { o.JunkFinished = true }, true, false},
+			{"suite_not_offered", func(o *rgmssl.TLSResumeOpts) { o.Suites = []uint16{0xc014} }, false, false},
+			{"no_suites", func(o *rgmssl.TLSResumeOpts) { o.Suites = []uint16{} }, true, false},
+			{"version_tls11", func(o *rgmssl.TLSResumeOpts) { o.Version = 0x0302 }, false, false},
+			{"version_ssl30", func(o *rgmssl.TLSResumeOpts) { o.Version = 0x0300 }, false, false},
+			{"ticket_bit", func(o *rgmssl.TLSResumeOpts) { o.Ticket = append([]byte{}, o.Ticket...); o.Ticket[len(o.Ticket)/2] ^= 4 }, false, false},
+			{"wrong_master", func(o *rgmssl.TLSResumeOpts) { o.Master = append([]byte{}, o.Master...); o.Master[0] ^= 1 }, true, false},
+			{"session_id_empty", func(o *rgmssl.TLSResumeOpts) { o.SessionID = []byte{} }, false, true},
+		}
+		for _, d := range devs {
+			n++
+			o := rgmssl.TLSResumeOpts{Ticket: ticket, Master: master, Random: fill32(uint64(n)), AppData: []byte("x")}
+			d.o(&o)
+			var rr *rgmssl.TLSResumeResult
+			sc := mk(fmt.Sprint("trd", n))
+			r := tlsx.RunServerAgainst(sc, []byte("y"), func(rw *wire.Conn) error {
+				var err error
+				rr, err = rgmssl.ResumeTLS12(rw, o)
+				return err
+			})
+			desc := fmt.Sprintf("%s, resuming TLS 1.2 client deviates: %s | server: hs=%v | scripted client: err=%v log=%v", mode, d.name, r.GM.HSErr, r.PeerErr, rr.Log)
+			if r.GM.Panic != nil {
+				t.Fatalf("the server PANICKED: %v\n%s\n%s", r.GM.Panic.Val, r.GM.Panic.Stack, desc)
+			}
+			if r.PeerPanic != nil {
+				t.Fatalf("harness: scripted client panicked: %v\n%s", r.PeerPanic.Val, r.PeerPanic.Stack)
+			}
+			complete := r.GM.HSErr == nil
+			switch {
+			case d.resume:
+				if !complete || !rr.Resumed || !rr.Completed {
+					t.Fatalf("an acceptable resuming ClientHello was not resumed to completion (resumed=%v completed=%v)\n%s", rr.Resumed, rr.Completed, desc)
+				}
+			case d.mustFail:
+				if complete || rr.Completed {
+					t.Fatalf("the server reported the handshake COMPLETE although the resuming client deviated from the protocol\n%s", desc)
+				}
+			default:
+				// the session may not be resumed as asked; the server may fall back to a full handshake (which this script
+				// does not follow) or refuse - it must not complete an abbreviated one
+				if rr.Resumed && (complete || rr.Completed) {
+					t.Fatalf("the server RESUMED and completed although the hello does not allow this session (%s)\n%s", d.name, desc)
+				}
+			}
+			R.Case(true, hx.HashKey("trd", mode, d.name), "tls_resumption_deviation", "trd:"+d.name, "endpoint:"+mode)
+		}
+	}
+	R.Subspace("resuming TLS 1.2 ClientHello deviations (compression lists, suites, versions, ticket, Finished) x {TLS-only, auto-switch} server, keyed scripted client", int64(n), true)
+}
+
+func fill32(seed uint64) []byte {
+	b := make([]byte, 32)
+	gen.Fill(b, seed)
+	return b
 }
 
 var lastInnerFields int // number of inner length fields of the message the last "inner_len" deviation hit
